@@ -1110,6 +1110,10 @@ type vAttempt struct {
 	tokParked  chan struct{} // RoundTrip -> harness
 	tokRelease chan struct{} // harness -> RoundTrip
 	held       bool
+	holdCtor    bool          // hold the attempt inside the configured NewTokenSource (after the exchange, before `h.tokenSource = ts`)
+	ctorParked  chan struct{} // constructor -> harness
+	ctorRelease chan struct{} // harness -> constructor
+	inCtor      bool
 	before   oauth2.TokenSource
 	err      error
 	panicked bool
@@ -1128,6 +1132,11 @@ type vWrappedTS struct{ oauth2.TokenSource }
 // context.Background() (not the attempt's), so it answers for the attempt that is finishing.
 func (hs *vHandler) newTokenSource(ctx context.Context, cfg *oauth2.Config, tok *oauth2.Token) (oauth2.TokenSource, error) {
 	if a := hs.finishing; a != nil {
+		if a.holdCtor {
+			a.holdCtor = false
+			a.ctorParked <- struct{}{}
+			<-a.ctorRelease
+		}
 		if a.w.ntFail {
 			return nil, vNtsErr
 		}
@@ -1258,7 +1267,7 @@ func (hs *vHandler) begin(w *vWorld) (a *vAttempt, obs string) {
 	r.addAll()
 	hs.cur = r
 	a = &vAttempt{k: len(hs.att), w: w, run: r, parked: make(chan string), release: make(chan struct{}), done: make(chan struct{}),
-		tokParked: make(chan struct{}), tokRelease: make(chan struct{})}
+		tokParked: make(chan struct{}), tokRelease: make(chan struct{}), ctorParked: make(chan struct{}), ctorRelease: make(chan struct{})}
 	first := true
 	r.onToken = func() {
 		if a.holdTok && first {
@@ -1358,6 +1367,37 @@ func (hs *vHandler) answer(k int) string {
 	}
 }
 
+// ctor lets attempt k go on (from the fetcher or the token request it is held at) up to the configured
+// NewTokenSource and holds it INSIDE the constructor: the code was exchanged, the next statement of the attempt is
+// `h.tokenSource = ts`. "ctor" = held there; "done" = its Authorize call returned without reaching it.
+func (hs *vHandler) ctor(k int) string {
+	if k < 0 || k >= len(hs.att) || hs.att[k].ended {
+		return "no-such-attempt"
+	}
+	a := hs.att[k]
+	if a.inCtor || a.inst != "" || !(a.held || a.isParked) {
+		return "done"
+	}
+	a.holdCtor = true
+	a.before, _ = hs.h.TokenSource(context.Background())
+	hs.finishing = a
+	if a.held {
+		a.held = false
+		close(a.tokRelease)
+	} else {
+		a.isParked = false
+		close(a.release)
+	}
+	select {
+	case <-a.ctorParked:
+		a.inCtor = true
+		return "ctor"
+	case <-a.done:
+		hs.observe(a)
+		return "done"
+	}
+}
+
 // end lets attempt k run to its end (from the fetcher, or from the token request it is held at) and waits
 // until its Authorize call has returned.
 func (hs *vHandler) end(k int) (a *vAttempt, obs string) {
@@ -1370,6 +1410,10 @@ func (hs *vHandler) end(k int) (a *vAttempt, obs string) {
 		return a, a.obs
 	}
 	switch {
+	case a.inCtor:
+		a.before, _ = hs.h.TokenSource(context.Background())
+		close(a.ctorRelease)
+		<-a.done
 	case a.held:
 		a.before, _ = hs.h.TokenSource(context.Background())
 		hs.finishing = a
@@ -2382,21 +2426,33 @@ func runOps(out *verifOut, cs string, ops []string, tag string) {
 			}
 			obs := hs.answer(k)
 			out.line(cs, op, obs, tag, "answer", "answer-"+obs)
+		case strings.HasPrefix(op, "ctor "):
+			k, err := strconv.Atoi(strings.TrimSpace(op[5:]))
+			if err != nil || hs == nil {
+				out.line(cs, op, "bad-op", tag)
+				continue
+			}
+			obs := hs.ctor(k)
+			out.line(cs, op, obs, tag, "ctor", "ctor-"+obs)
 		case strings.HasPrefix(op, "end "):
 			k, err := strconv.Atoi(strings.TrimSpace(op[4:]))
 			if err != nil || hs == nil {
 				out.line(cs, op, "bad-op", tag)
 				continue
 			}
-			inFlight, heldOthers := 0, 0
+			inFlight, heldOthers, ctorOthers := 0, 0, 0
 			for _, x := range hs.att {
-				if !x.ended && (x.isParked || x.held) {
+				if !x.ended && (x.isParked || x.held || x.inCtor) {
 					inFlight++
 					if x.held && x.k != k {
 						heldOthers++
 					}
+					if x.inCtor && x.k != k {
+						ctorOthers++
+					}
 				}
 			}
+			selfCtor := k >= 0 && k < len(hs.att) && hs.att[k].inCtor
 			a, obs := hs.end(k)
 			if a == nil {
 				out.line(cs, op, obs, tag)
@@ -2404,13 +2460,19 @@ func runOps(out *verifOut, cs string, ops []string, tag string) {
 			}
 			book(a.w, obs)
 			tags := append(flowTags(a.w, obs), tag, "end")
+			if selfCtor && ctorOthers > 0 && strings.Contains(obs, "inst=1") {
+				tags = append(tags, "installed-while-another-attempt-is-about-to-install")
+			}
+			if selfCtor && strings.Contains(obs, "inst=1") && len(hs.installed) > 1 {
+				tags = append(tags, "racing-finishes-both-installed")
+			}
 			if heldOthers > 0 && strings.Contains(obs, "inst=1") {
 				tags = append(tags, "installed-while-a-token-request-of-another-attempt-is-under-way")
 			}
 			if a.held && strings.Contains(obs, "inst=1") {
 				tags = append(tags, "installed-after-being-held-at-the-token-endpoint")
 			}
-			if (a.isParked || a.held) && inFlight > 1 {
+			if (a.isParked || a.held || a.inCtor) && inFlight > 1 {
 				tags = append(tags, fmt.Sprintf("in-flight=%d", inFlight))
 				if strings.Contains(obs, "inst=1") {
 					tags = append(tags, "installed-while-others-in-flight")
@@ -2485,7 +2547,7 @@ func TestVerifOAuthFlow(t *testing.T) {
 			out.line("pool", "reset", "bad-pool-parses:"+hxs(s), "reset")
 		}
 	}
-	if runCorpusAndReplay(out, "auth ", "again ", "begin ", "end ", "answer ", "new ") {
+	if runCorpusAndReplay(out, "auth ", "again ", "begin ", "end ", "answer ", "ctor ", "new ") {
 		return
 	}
 	// handler construction: which configurations become a handler, with which redirect URL / application type
@@ -2518,6 +2580,15 @@ func TestVerifOAuthFlow(t *testing.T) {
 			for _, k := range open {
 				if rng.Intn(100) < 35 {
 					ops = append(ops, fmt.Sprintf("answer %d", k))
+				}
+			}
+			// with NewTokenSource configured: some are taken up to the LAST statement (held inside the constructor, the
+			// code exchanged, `h.tokenSource = ts` next) — two or three of them race for the installation
+			if g.base != nil && g.base.nts {
+				for _, k := range open {
+					if rng.Intn(100) < 60 {
+						ops = append(ops, fmt.Sprintf("ctor %d", k))
+					}
 				}
 			}
 			rng.Shuffle(len(open), func(a, b int) { open[a], open[b] = open[b], open[a] })
